@@ -681,7 +681,16 @@ func (res *Resolver) ResolveGlob(sourceDir string, importPathPattern []helpers.G
 		}
 	}
 	sb.WriteByte('$')
-	re := regexp.MustCompile(sb.String())
+	re, err := regexp.Compile(sb.String())
+	if err != nil {
+		// The pattern comes from the source code, so it may not be a valid regular
+		// expression (e.g. if it contains text that isn't valid UTF-8)
+		if r.debugLogs != nil {
+			r.debugLogs.addNote(fmt.Sprintf("Failed to compile the glob pattern: %s", err.Error()))
+		}
+		r.flushDebugLogs(flushDueToFailure)
+		return nil, nil
+	}
 
 	// Initialize "results" to a non-nil value to indicate that the glob is valid
 	results := make(map[string]ResolveResult)
